@@ -197,37 +197,64 @@ def exact_quota_params(o):
     if r in ('wigm-prf', 'wigm-prf-batch'): return (4, 'fixed')
     if r == 'scotland': return (5, 'int')
     if r == 'mpls': return (4, 'int')
-    if r in ('cfer', 'cfer-batch'): return (5, 'int')
+    if r in ('cfer', 'cfer-batch'): return (5, 'fixed')
     if r == 'wigm' and o.get('arithmetic') in ('fixed', 'guarded') and o.get('precision') and o['precision'] <= 9:
         if o.get('arithmetic') == 'guarded' and o.get('guard', o['precision']) != 0: return None
         return (o['precision'], 'int' if o.get('integer_quota') else 'fixed')
     return None
 
+_EXACT = {}
+def _exact_solutions(p, kind):
+    """(seats, v, a, k, N): candidate 1 has v first preferences, k of them name candidate 2 next, candidate 2 has a;
+       the surplus transfer of 1 (value truncated to p places) lands 2 exactly on the quota"""
+    key = (p, kind)
+    if key in _EXACT: return _EXACT[key]
+    S = 10 ** p; out = []
+    if kind == 'fixed':
+        for seats in (1, 2, 3, 4):
+            for r in range(1, seats + 1):
+                if 2 * r > seats + 1: continue
+                for a in range(1, 1500):
+                    N = (seats + 1) * a + r; q = N * S // (seats + 1) + 1; v = a + 1
+                    w = (v * S - q) // v
+                    if w <= 0: continue
+                    need = q - a * S
+                    if need % w == 0 and 1 <= need // w <= v:
+                        out.append((seats, v, a, need // w, N))
+    else:
+        for seats in (2, 3, 4):
+            for c in (2, 4, 5, 8, 10):
+                if S % c: continue
+                for d in range(1, 30):
+                    Q = (c - 1) * d; v = c * d; a = Q - 1
+                    if a < 1: continue
+                    for N in range((seats + 1) * (Q - 1), (seats + 1) * Q):
+                        if N - v - a >= 2 and N // (seats + 1) + 1 == Q:
+                            out.append((seats, v, a, c, N))
+    _EXACT[key] = out
+    return out
+
 def gen_exact_quota(rng, p=4, kind='fixed'):
     """an elected candidate's surplus lands a second candidate exactly on the quota
-    (floor(N*S/(s+1)) + 1 raw units, or the whole-vote quota): found by random search over small parameters"""
+    (floor(N*S/(s+1)) + 1 raw units, or the whole-vote quota)"""
     S = 10 ** p
-    for _ in range(200000):
-        seats = rng.choice([2, 2, 3])
-        v = rng.randint(6, 140); a = rng.randint(1, 40); f = rng.randint(2, 80)
-        N = v + a + f
+    sols = _exact_solutions(p, kind)
+    if not sols: return gen_election(rng, 'nearquota')
+    for _ in range(50):
+        seats, v, a, k, N = rng.choice(sols)
+        f = N - v - a
         q = N * S // (seats + 1) + 1 if kind == 'fixed' else (N // (seats + 1) + 1) * S
-        if v * S < q: continue
-        w = (v * S - q) // v
-        if w <= 0: continue
-        need = q - a * S
-        if need <= 0 or need % w: continue
-        k = need // w
-        if k > v or k < 1: continue
-        # fillers: spread f ballots over other candidates, each below the quota and above zero
-        nf = max(2, (f * S) // q + 1 + rng.randint(0, 1))
+        if f < 0: continue
+        nf = max(2 if f >= 2 else (1 if f == 1 else 0), (f * S) // q + 1 + rng.randint(0, 1)) if f > 0 else 0
         lines = [(k, [1, 2]), (a, [2])]
         if v - k > 0: lines.append((v - k, [1]))
         for i in range(nf):
             share = f // nf + (1 if i < f % nf else 0)
-            if share > 0: lines.append((share, [3 + i]))
+            if share > 0:
+                tail = [3 + j for j in range(nf) if j != i]; rng.shuffle(tail)
+                lines.append((share, [3 + i] + tail[:rng.randint(0, len(tail))]))
         n = 2 + nf
-        if n <= seats or N < n: continue
+        if n <= seats: continue
         return _finish(rng, n, seats, lines)
     return gen_election(rng, 'nearquota')
 
